@@ -42,9 +42,12 @@ int lrtr_get_monotonic_time(time_t *seconds)
 uint32_t lrtr_get_bits(const uint32_t val, const uint8_t from, const uint8_t number)
 {
 	assert(number < 33);
-	assert(number > 0);
 
 	uint32_t mask = ~0;
+
+	/* no bits requested, or only bits beyond the last one: nothing to extract */
+	if (number == 0 || from > 31)
+		return 0;
 
 	if (number != 32)
 		mask = ~(mask >> number);
